@@ -27,6 +27,8 @@ before it (or free Verus text when outside an @extract block).
     @rule R2                             `.map(Self)`/`.map(Ctor)` eta-expansion (payload: closure text per match)
     @rule R3 loop ORD index NAME         iter_mut loop -> index loop
     @rule R10 [NAME]                     `mut self` parameter -> `let mut NAME = self;` + renaming in the body
+    @rule pub                            item made pub                                 [R0]
+    @rule R12                            debug_assert_eq!(a, b) -> debug_assert!((a) == (b))
     @rule ascribe "let x" "T"            type ascription added to a let                [R11]
     @rule pubfields                      struct fields made pub                      [R0]
     @rule macro-inst MACRO $v=Value      instantiate a macro_rules body like the invocation MACRO!(Value, ..) does [R9]
@@ -532,6 +534,47 @@ class Extractor:
                 if t.kind == "ident" and t.text == "self":
                     add(t.start, t.end, name, ("rule", "R10-mut-self", cur_label, d.line))
             self.count("R10-mut-self")
+            return
+        if rule == "pub":
+            # visibility normalised to pub (Verus: items mentioned by pub spec functions must be visible)
+            it = cur.item if cur is not None else item
+            head = src[it.start:it.start + 4]
+            if head.startswith("pub"):
+                return
+            add(it.start, it.start, "pub ", ("rule-ins", "R0-pub", cur_label, d.line))
+            self.count("R0-pub")
+            return
+        if rule == "R12":
+            # `debug_assert_eq!(a, b)` / `assert_eq!(a, b)`  =>  `debug_assert!(a == b)` / `assert!(a == b)`
+            # (same check, only the panic message differs; Verus has no model of assert_failed)
+            toks = cur.toks
+            n = 0
+            for q in range(cur.body_open_idx, cur.body_close_idx):
+                t = toks[q]
+                if t.kind == "ident" and t.text in ("debug_assert_eq", "assert_eq", "debug_assert_ne", "assert_ne") and toks[q + 1].text == "!" and toks[q + 2].text == "(":
+                    o = q + 2
+                    c = cur.br[o]
+                    # top-level commas
+                    commas = []
+                    j = o + 1
+                    while j < c:
+                        tj = toks[j]
+                        if tj.kind == "punct" and tj.text in ("(", "[", "{"):
+                            j = cur.br[j] + 1; continue
+                        if tj.text == ",":
+                            commas.append(j)
+                        j += 1
+                    if len(commas) != 1:
+                        raise GenError("rule R12: %s with a message is not handled in %s" % (t.text, cur_label))
+                    op = " == " if t.text.endswith("_eq") else " != "
+                    add(t.start, t.end, t.text[:-3], ("rule", "R12-assert-eq", cur_label, d.line))
+                    add(toks[o + 1].start, toks[o + 1].start, "(", ("rule-ins", "R12-assert-eq", cur_label, d.line))
+                    add(toks[commas[0]].start, toks[commas[0]].end, ")" + op + "(", ("rule", "R12-assert-eq", cur_label, d.line))
+                    add(toks[c].start, toks[c].start, ")", ("rule-ins", "R12-assert-eq", cur_label, d.line))
+                    n += 1
+            if n == 0:
+                raise GenError("rule R12 no longer matches in %s" % cur_label)
+            self.count("R12-assert-eq", n)
             return
         if rule == "ascribe":
             # @rule ascribe "let mut x" "T" : add a type ascription to a let (Rust infers the same type;
